@@ -97,24 +97,7 @@ func (f *STFS) Create(name string) (afero.File, error) {
 
 	name = cleanName(name)
 
-	if parent, err := inventory.Stat(
-		f.metadata,
-
-		filepath.Dir(name),
-		false,
-
-		f.onHeader,
-	); err != nil {
-		if err == sql.ErrNoRows {
-			return nil, os.ErrNotExist
-		}
-
-		return nil, err
-	} else if parent.Typeflag != tar.TypeDir {
-		// Entries can only live beneath directories
-		return nil, config.ErrIsFile
-	}
-
+	// `OpenFile` checks the parent directory while it holds the I/O lock
 	return f.OpenFile(name, os.O_RDWR|os.O_CREATE|os.O_TRUNC, 0666)
 }
 
@@ -1188,6 +1171,9 @@ func (f *STFS) SymlinkIfPossible(oldname, newname string) error {
 		return os.ErrInvalid
 	}
 
+	f.ioLock.Lock()
+	defer f.ioLock.Unlock()
+
 	var err error
 	rawOldName := oldname
 	oldname, err = f.resolveCleanName(oldname, true)
@@ -1200,9 +1186,6 @@ func (f *STFS) SymlinkIfPossible(oldname, newname string) error {
 	if err != nil {
 		return err
 	}
-
-	f.ioLock.Lock()
-	defer f.ioLock.Unlock()
 
 	if parent, err := inventory.Stat(
 		f.metadata,
